@@ -527,7 +527,8 @@ impl RunState {
             0x24 => {
                 'string: for addr in self.reg(0).. {
                     let chr_raw = self.mem(addr);
-                    for chr in [chr_raw >> 8, chr_raw & 0xFF] {
+                    // Packed string: bits [7:0] are written first, then bits [15:8]
+                    for chr in [chr_raw & 0xFF, chr_raw >> 8] {
                         let chr_ascii = chr as u8 as char;
                         if chr_ascii == '\0' {
                             break 'string;
